@@ -172,6 +172,14 @@ contract(TM + ".__init__", "C10", is_init=True, params={"signatures": "none", "r
                                                              "(rate_limit is None) == (self.rate_limit is None) and implies(rate_limit is not None, self.rate_limit == rate_limit)",
                   "innate-signatures-are-installed": "len(self.signatures) == len(Membrane.INNATE_SIGNATURES)",
                   "starts-without-memory": "len(self._blocked_hashes) == 0 and len(self._learned_patterns) == 0"})
+# registration entry points: what is registered is scanned (appended to the list the gates iterate over, nothing replaced)
+contract(TM + ".add_signature", "C10", params={"signature": "obj:ThreatSignature"}, raises=[], modifies=["self.signatures"],
+         ensures={"the-signature-is-appended": "len(self.signatures) == len(old(self).signatures) + 1 and self.signatures[len(self.signatures) - 1] is signature"})
+contract(FI + "::InnateImmunity.add_pattern", "C10", params={"pattern": "obj:TLRPattern"}, raises=[], modifies=["self.patterns"],
+         ensures={"the-pattern-is-appended": "len(self.patterns) == len(old(self).patterns) + 1 and self.patterns[len(self.patterns) - 1] is pattern"})
+contract(FI + "::InnateImmunity.add_validator", "C10", params={"validator": "callback"}, raises=[], modifies=["self.validators"],
+         ensures={"the-validator-is-appended": "len(self.validators) == len(old(self).validators) + 1"})
+
 # "... no active signature (built-in, CUSTOM, learned or imported) ...": the caller's signatures are installed after the innate ones
 # (per shape: one and two custom signatures, arbitrary signature objects; list.extend over a symbolic-length list is outside the engine)
 for _n in (1, 2):
